@@ -73,11 +73,15 @@ def gen_cases(rng, tier, info):
         cases.append(Case("pair-%d" % chunk, cmds))
     # (b) boundary lengths in encoded units
     for units in (29, 30, 31, 32, 33):
-        for kind in ("pairs", "lone", "astral", "mixed"):
+        for kind in ("pairs", "lone", "astral", "mixed", "cjk", "latin"):
             if kind == "pairs":
                 nm = "ab" * units                      # one unit per packed pair
             elif kind == "lone":
                 nm = "-" * units
+            elif kind == "cjk":
+                nm = "\u4e2d" * units                   # three UTF-8 bytes, one unit each: byte length is not the limit
+            elif kind == "latin":
+                nm = "\u00e9" * units
             elif kind == "astral":
                 nm = "\U0001f600" * (units // 2) + ("-" if units % 2 else "")
             else:
